@@ -1168,7 +1168,13 @@ func (m *Nitro) LoadFromDisk(dir string, concurr int, callb ItemCallback) (*Snap
 		}
 	}
 
+	oldStore := m.store
 	m.store = b.Assemble(segments...)
+	if m.useMemoryMgmt {
+		// The sentinels of the replaced store are not reachable any more
+		oldStore.FreeNode(oldStore.HeadNode(), &oldStore.Stats)
+		oldStore.FreeNode(oldStore.TailNode(), &oldStore.Stats)
+	}
 
 	// Delta processing
 	if m.useDeltaFiles {
